@@ -15,6 +15,7 @@ import (
 	"path/filepath"
 	"sort"
 	"strconv"
+	"strings"
 	"sync"
 	"testing"
 
@@ -98,6 +99,12 @@ func EnvInt(name string, def int) int {
 
 // Tier is "quick" or "thorough".
 func Tier() string { return Env("VERIF_TIER", "quick") }
+
+// FirstShard tells whether this process is shard 0 of its test (enumerations run once)
+func FirstShard() bool {
+	s := os.Getenv("VERIF_SHARD")
+	return s == "" || strings.HasSuffix(s, ".0") || !strings.Contains(s, ".")
+}
 
 // Thorough tells whether the thorough tier is running.
 func Thorough() bool { return Tier() == "thorough" }
